@@ -117,7 +117,9 @@ int main(int argc, char **argv) {
         std::string img; size_t sz;
         realEmit(ti, v, img, sz);
         uint8_t buf[8]; size_t l = X_emit(ti, v, sb >= 1 && sb <= 8 ? sb : 1, buf);
-        if (l != sz || l > img.size() || memcmp(buf, img.data(), l < 8 ? l : 8) != 0) bad = true;
+        // same bytes; the real image continues with word-alignment padding zeros only
+        if (l > img.size() || l > 8 || memcmp(buf, img.data(), l) != 0) bad = true;
+        for (size_t q = l; !bad && q < img.size(); q++) if (img[q] != 0) bad = true;
       }
       if (!bad && cnt % 5 == 0) {
         // literal path
